@@ -259,6 +259,13 @@ def describe(obj):
     return (str(b.closed), [float(x) for x in np.asarray(b.edges, dtype="f8")])
 
 
+def describe_safe(obj):
+    try:
+        return describe(obj)
+    except Exception as e:  # noqa: BLE001 - an object that no longer reports a binning is an observation
+        return ("<%s: %s>" % (type(e).__name__, e), [])
+
+
 def _echo(obj):
     """runs in a worker process: what the worker sees, and the object itself for the way back"""
     return (describe(obj), obj)
@@ -444,7 +451,7 @@ def observe(ctx, spec, idx):
             bt = BinnedTrees(patch)
             trees.append([(int(t.num_records), float(t.sum_weights)) for t in bt])
             if whole is None and p == 0:
-                reported["tree-cache"] = describe(bt.binning)
+                reported["tree-cache"] = describe_safe(bt.binning)
         with pool_flavour(spec):
             # ---- consumer 2: the histogram
             hist = None
@@ -455,7 +462,7 @@ def observe(ctx, spec, idx):
                     conf = impl.Configuration.create(rmin=100.0, rmax=1000.0, edges=edges, closed=closed, max_workers=W)
                 hd = HistData.from_catalog(cat, sent(conf), max_workers=W)
                 hist = [float(x) for x in hd.data]
-                reported["HistData"] = describe(hd)
+                reported["HistData"] = describe_safe(hd)
             except Exception as e:  # noqa: BLE001
                 errors["hist"] = "%s: %s" % (type(e).__name__, e)
             # ---- consumer 3: per-bin sum_weights of a measurement
@@ -475,7 +482,7 @@ def observe(ctx, spec, idx):
                         cf = yaw.crosscorrelate(conf, cat, cat_u, unk_rand=cat_u, max_workers=W)[0]
                         sw = cf.dd.sum_weights
                     meas = [[float(x) for x in row] for row in np.asarray(sw.sum_weights1)]
-                    reported["CorrFunc"] = describe(cf)
+                    reported["CorrFunc"] = describe_safe(cf)
                 except Exception as e:  # noqa: BLE001
                     errors["meas"] = "%s: %s" % (type(e).__name__, e)
                 finally:
@@ -512,17 +519,36 @@ def label(ctx, spec):
         ctx.bump("measurement:" + spec["meas"])
     key = (closed, spec["hasw"], tuple(edges), tuple(tuple(o) for objs in spec["patches"] for o in objs + [("|", 0)]),
            spec["meas"], spec["cfg"])
+    how = flavour_of(spec)
+    if how:
+        key += (how, spec.get("workers"), spec.get("transport"))
+        ctx.bump("boundary:%s" % how + (":%s" % transport_class(spec["transport"]) if spec.get("transport") else ":w%d" % spec["workers"]))
+        if inner or outer:
+            ctx.bump("boundary:%s:z_on_edge" % how)
     ctx.count(key=key, nontrivial=inner or outer or outside,
-              kind="%s/%s/%s" % (closed, "weighted" if spec["hasw"] else "unweighted", spec["tag"].split(":")[0]))
+              kind="%s/%s/%s%s" % (closed, "weighted" if spec["hasw"] else "unweighted", spec["tag"].split(":")[0],
+                                   "/" + how if how else ""))
     ctx.bump("patches:%d" % len(spec["patches"]))
     ctx.bump("nbins:%d" % (len(edges) - 1))
     return dict(inner=inner, outer=outer, outside=outside, empty_patch=empty_patch, empty_bin=empty_bin)
+
+
+def where_text(spec):
+    if spec.get("transport"):
+        return " when the binning / configuration went through '%s' first" % spec["transport"]
+    if spec.get("pool") == "real":
+        return " when the work is done by %d worker processes" % spec["workers"]
+    if spec.get("pool") == "pickling":
+        return " when every task and result of the pool is pickled (%d workers)" % spec["workers"]
+    return ""
 
 
 def interpret(ctx, idx, spec, obs, info, c):
     """bits (set = flag false): 1 model=impl trees, 2 trees=spec, 4 hist=spec, 8 consistent,
     16 trees=current-code model, 32 hist=current-code model, 64 measurement=spec, 128 hypotheses"""
     replay = dict(spec=spec, observed=obs, labels=info, code=c)
+    how = flavour_of(spec)
+    how = ":" + how if how else ""      # where the binning was applied; the serial signatures are unchanged
     if c is None:
         return
     if c & 128:
@@ -536,30 +562,128 @@ def interpret(ctx, idx, spec, obs, info, c):
             ctx.fail(SIG_F17, "build_trees raises UnboundLocalError for a patch without an object inside the binning "
                      "(all other patches/bins as specified): %s" % obs["errors"], replay, case=idx)
         elif tree_errs - {"UnboundLocalError"} or (tree_errs and c & 16):
-            ctx.fail("c10-build-trees-raises:" + "+".join(sorted(tree_errs)),
+            ctx.fail("c10-build-trees-raises:" + "+".join(sorted(tree_errs)) + how,
                      "building trees raised where zeros are required: %s" % obs["errors"], replay, case=idx)
         else:
-            ctx.fail("c10-trees-membership", "BinnedTrees per-bin num_records/sum_weights differ from the closed-%s rule: "
-                     "edges %s, objects %s, trees %s" % (spec["closed"], spec["edges"], spec["patches"], obs["trees"]),
+            ctx.fail("c10-trees-membership" + how, "BinnedTrees per-bin num_records/sum_weights differ from the closed-%s rule%s: "
+                     "edges %s, objects %s, trees %s" % (spec["closed"], where_text(spec), spec["edges"], spec["patches"], obs["trees"]),
                      replay, case=idx)
     if c & 4:
         if obs["hist"] is None:
-            ctx.fail("c10-hist-raises:" + obs["errors"].get("hist", "?").split(":")[0],
+            ctx.fail("c10-hist-raises:" + obs["errors"].get("hist", "?").split(":")[0] + how,
                      "HistData.from_catalog raised: %s" % obs["errors"].get("hist"), replay, case=idx)
         elif not (c & 32) and spec["closed"] == "right":
             ctx.fail(SIG_F11, "HistData.from_catalog with closed=right counts a redshift on an inner bin edge in the upper bin "
                      "(mask + np.histogram): edges %s, objects %s, histogram %s" % (spec["edges"], spec["patches"], obs["hist"]),
                      replay, case=idx)
         else:
-            ctx.fail("c10-hist-membership", "HistData.from_catalog(...).data differs from the closed-%s rule: edges %s, "
-                     "objects %s, histogram %s" % (spec["closed"], spec["edges"], spec["patches"], obs["hist"]),
+            ctx.fail("c10-hist-membership" + how, "HistData.from_catalog(...).data differs from the closed-%s rule%s: edges %s, "
+                     "objects %s, histogram %s" % (spec["closed"], where_text(spec), spec["edges"], spec["patches"], obs["hist"]),
                      replay, case=idx)
     if c & 64 or "meas" in obs["errors"]:
-        ctx.fail("c10-measurement-sum-weights", "per-bin sum_weights stored in the measurement differ from the closed-%s rule "
-                 "or could not be obtained: %s %s" % (spec["closed"], obs["meas"], obs["errors"].get("meas")), replay, case=idx)
+        ctx.fail("c10-measurement-sum-weights" + how, "per-bin sum_weights stored in the measurement differ from the closed-%s rule%s "
+                 "or could not be obtained: %s %s" % (spec["closed"], where_text(spec), obs["meas"], obs["errors"].get("meas")), replay, case=idx)
     elif c & 8 and not (c & (1 | 2 | 4)):
-        ctx.fail("c10-consumers-inconsistent", "trees, histogram and measurement sum_weights are mutually inconsistent: %s" % obs,
+        ctx.fail("c10-consumers-inconsistent" + how, "trees, histogram and measurement sum_weights are mutually inconsistent: %s" % obs,
                  replay, case=idx)
+
+
+# ---------------------------------------------------------------- transports: what arrives is what was sent
+def make_obj(objtype, closed, edges):
+    from yaw.binning import Binning
+    from yaw.config import BinningConfig
+    if objtype == "Binning":
+        return Binning(edges, closed=closed)
+    if objtype == "BinningConfig":
+        return BinningConfig.create(edges=edges, closed=closed)
+    return impl.Configuration.create(rmin=100.0, rmax=1000.0, edges=edges, closed=closed, max_workers=1)
+
+
+OBJTYPES = ["Binning", "BinningConfig", "Configuration"]
+
+
+def transport_records(ctx):
+    """(object type x transport x closed side x edges): the object is created with the configured closed side and
+    edges, transported, and what it then reports is recorded; plus one real worker process per object (what
+    the worker sees, and what comes back)"""
+    rng = ctx.rng
+    edge_sets = [[0.25, 0.5, 1.0], [0.5, 1.0], [0.1, 0.3, 0.5, 0.7, 0.9]] + [random_edges(rng) for _ in range(ctx.n(5, 30))]
+    recs, objs = [], []
+    for edges in edge_sets:
+        for closed in ("left", "right"):
+            for objtype in OBJTYPES:
+                kinds = sorted(TRANSPORTS) + (["binning-copy"] if objtype == "Binning" else [])
+                for kind in kinds:
+                    rec = dict(obj=objtype, kind=kind, closed=closed, edges=list(edges))
+                    try:
+                        rec["got"] = list(describe_safe(transport(kind, make_obj(objtype, closed, edges))))
+                    except Exception as e:  # noqa: BLE001 - a refusal to be transported is not a wrong bin
+                        rec["refused"] = "%s: %s" % (type(e).__name__, e)
+                    recs.append(rec)
+                objs.append((objtype, closed, list(edges)))
+    try:
+        with multiprocessing.Pool(2) as pool:
+            back = pool.map(_echo, [make_obj(*o) for o in objs])
+    except Exception as e:  # noqa: BLE001
+        back = None
+        ctx.bump("transport_refused:worker-process:%s" % type(e).__name__, len(objs))
+    for (objtype, closed, edges), res in zip(objs, back or []):
+        seen, obj = res
+        recs.append(dict(obj=objtype, kind="worker-process-view", closed=closed, edges=edges, got=list(seen)))
+        recs.append(dict(obj=objtype, kind="worker-process-return", closed=closed, edges=edges, got=list(describe_safe(obj))))
+    return recs
+
+
+def eval_transports(ctx, recs, name="Transports_C10"):
+    terms, kept = [], []
+    for n, t in enumerate(recs):
+        tid = ("transport", name, n)
+        reported = t["obj"].startswith("reported:")
+        cls = transport_class(t["kind"])
+        if not reported:
+            ctx.count(key=(t["obj"], t["kind"], t["closed"], tuple(t["edges"])), nontrivial=True, kind="transport/%s/%s" % (t["obj"], cls))
+        if "refused" in t:
+            ctx.bump("transport_refused:%s:%s" % (t["obj"], cls))
+            continue
+        prefix = "c10-reported-binning" if reported else "c10-transport"
+        obj = t["obj"].split(":", 1)[1] if reported else t["obj"]
+        text = ("the binning reported by %s after the work was done (%s)" % (obj, t["kind"])) if reported else \
+            ("a %s after '%s'" % (obj, t["kind"]))
+        gc, ge = t["got"]
+        try:
+            assert gc in ("left", "right")
+            term = "c10_transport_case %s %s %s %s" % (fq.b(t["closed"] == "right"), fq.qlist(t["edges"]), fq.b(gc == "right"), fq.qlist(ge))
+        except Exception:  # noqa: BLE001 - not a closed side / not finite edges
+            ctx.fail("%s-not-a-binning:%s:%s" % (prefix, obj, cls), "%s no longer reports a closed side and finite edges: sent closed=%s edges=%s, "
+                     "got %r" % (text, t["closed"], t["edges"], t["got"]), dict(transport=t), case=tid)
+            continue
+        terms.append(term)
+        kept.append((tid, t, prefix, obj, cls, text))
+    if not terms:
+        return
+    codes = ctx.shards(name, HEADER, terms, shard=250)
+    for (tid, t, prefix, obj, cls, text), c in zip(kept, codes):
+        # bits (set = flag false): 1 closed side unchanged, 2 edges unchanged, 4 same bins on all edges/midpoints/outside values, 8 hypotheses
+        if c is None:
+            continue
+        if c & 8:
+            ctx.obligation("generator:transport %s satisfies the theorems' hypotheses" % (tid,), False, repr(t))
+            continue
+        if c & 7:
+            changed = "+".join(nm for bit, nm in ((1, "closed-side"), (2, "edges")) if c & bit) or "membership"
+            ctx.fail("%s-changes-%s:%s:%s" % (prefix, changed, obj, cls),
+                     "%s reports closed=%s edges=%s, configured was closed=%s edges=%s: redshifts on the bin edges change their bin "
+                     "(C10_closed_flip_on_edges / C10_member_determines_binning)" % (text, t["got"][0], t["got"][1], t["closed"], t["edges"]),
+                     dict(transport=t, code=c), case=tid)
+
+
+def reported_records(kept):
+    recs = []
+    for idx, spec, obs, _ in kept:
+        for where, got in sorted((obs.get("reported") or {}).items()):
+            recs.append(dict(obj="reported:" + where, kind=flavour_of(spec) or "serial", closed=spec["closed"], edges=list(spec["edges"]),
+                             got=list(got), spec=spec, case=idx))
+    return recs
 
 
 def run_specs(ctx, specs, name="Cases_C10"):
@@ -585,6 +709,10 @@ def run_specs(ctx, specs, name="Cases_C10"):
         interpret(ctx, idx, spec, obs, info, c)
     ctx.extra["hypotheses_checked"] = {
         "edges strictly increasing and at least two (flag 7 of c10_case, evaluated in Coq)": "%d/%d" % (hyp_ok, len(kept))}
+    rep_recs = reported_records(kept)
+    for t in rep_recs:
+        ctx.bump("%s:%s" % (t["obj"], t["kind"]))
+    eval_transports(ctx, rep_recs, name=name + "_Reported")
     return codes
 
 
@@ -597,10 +725,32 @@ def run(ctx):
         specs += exhaustive_specs({1: 3, 2: 3})
         nrand = 700
     specs += [random_spec(ctx.rng) for _ in range(nrand)]
+    nserial = len(specs)
+    specs += boundary_specs(ctx)
+    ctx.log("%d serial cases, %d cases across a process boundary" % (nserial, len(specs) - nserial))
     run_specs(ctx, specs)
+    eval_transports(ctx, transport_records(ctx))
 
 
 def replay(ctx, body):
-    spec = body["replay"]["spec"] if "replay" in body else body["spec"]
+    rp = body["replay"] if "replay" in body else body
+    if "spec" not in rp and "transport" in rp:
+        t = rp["transport"]
+        if "spec" in t:          # a binning reported by a result: replay the case it came from
+            rp = dict(spec=t["spec"])
+        else:
+            rec = dict(obj=t["obj"], kind=t["kind"], closed=t["closed"], edges=list(t["edges"]))
+            obj = make_obj(rec["obj"], rec["closed"], rec["edges"])
+            if rec["kind"].startswith("worker-process"):
+                with multiprocessing.Pool(2) as pool:
+                    seen, back = pool.map(_echo, [obj])[0]
+                rec["got"] = list(seen) if rec["kind"].endswith("view") else list(describe_safe(back))
+            else:
+                rec["got"] = list(describe_safe(transport(rec["kind"], obj)))
+            eval_transports(ctx, [rec], name="ReplayTransport_C10")
+            return
+    spec = rp["spec"]
     spec["patches"] = [[tuple(o) for o in objs] for objs in spec["patches"]]
+    if spec.get("prior"):
+        spec["prior"] = [tuple(x) for x in spec["prior"]]
     run_specs(ctx, [spec], name="Replay_C10")
